@@ -95,7 +95,9 @@ func (r *rule) match(path string) (bool, error) {
 }
 
 func (r *rule) compile() error {
-	regStr := "^"
+	// (?s) lets "." match a newline too: a file name may contain one, and
+	// "**" and a trailing "/" are documented to cover everything below.
+	regStr := "(?s)^"
 	pattern := r.val
 	// Go through the pattern and convert it to a regexp.
 	// Use a scanner to support utf-8 chars.
@@ -136,7 +138,8 @@ func (r *rule) compile() error {
 		} else if ch == '?' {
 			// "?" is any char except "/"
 			regStr += "[^" + escSL + "]"
-		} else if ch == '.' || ch == '$' {
+		} else if ch == '.' || ch == '$' || ch == '+' || ch == '(' || ch == ')' ||
+			ch == '|' || ch == '^' || ch == '{' || ch == '}' {
 			// Escape some regexp special chars that have no meaning
 			// in golang's filepath.Match
 			regStr += `\` + string(ch)
